@@ -2104,6 +2104,9 @@ FLOWFUNCS = [
          subst=[(r"self\s*\.filter", "headers.iter().filter")],
          params=[("headers", "val", "list header", "list"), ("key", "val", "bytes", None), ("value", "val", "bytes", None)],
          rust_ret="bool"),
+    dict(coq="gen_has_expect_100", file="src/ext.rs", impl=None, rust="has_expect_100", kind="plain",
+         subst=[(r"self\.has\(", "headers_has(headers, ")],
+         params=[("headers", "val", "list header", "list")], functions={"headers_has": "gen_headers_has"}, rust_ret="bool"),
     # src/client/amended.rs: the effective header list (caller-added headers first, then the original ones that are not unset) and the
     # accessors built on it; the three containers are lists (ArrayVec / HeaderMap iteration order), names compare as byte strings
     dict(coq="gen_am_headers", file="src/client/amended.rs", impl=r"impl<Body>\s+AmendedRequest<Body>", rust="headers", kind="plain",
